@@ -33,8 +33,15 @@ def generate(rnd, phrases, n):
                 q2, _ = ugen.quantity(rnd, ug)
                 q = "%s %s %s" % (q, rnd.choice("*/"), q2)
             out.append(q)
-        elif c < 0.6:
+        elif c < 0.55:
             out.append(rnd.choice(phrases))
+        elif c < 0.62:
+            # several facts in one query (the description block lists them in the order of evaluation, whatever their sources)
+            ps = [rnd.choice(phrases) for _ in range(rnd.randint(2, 4))]
+            if rnd.random() < 0.5:
+                out.append(ps[0] + "".join(rnd.choice([" * ", " / "]) + x for x in ps[1:]))
+            else:
+                out.append(" ".join("(%s)" % x for x in ps))
         elif c < 0.7:
             out.append("%s * %d" % (rnd.choice(phrases), rnd.randint(1, 9)))
         elif c < 0.8:
